@@ -13,6 +13,8 @@ and threshold, cookie configuration, crypto rule) and every history: any number 
 operations in each, any cookie source (the jar, nothing, a replayed older cookie), external expiry
 of records, any remaining-TTL report.
 -/
+set_option linter.unusedSimpArgs false
+set_option linter.unusedSectionVars false
 namespace Pxv.Session
 open Spec
 
@@ -296,5 +298,33 @@ example : NoF7 (observed (runHistory exCfg
   intro o ho
   revert o
   decide
+
+
+/-! Hypotheses of the per-state theorems are satisfiable on non-trivial instances. -/
+
+/-- A loaded session with server and client state whose id has been cycled, and its store. -/
+def exSess : Sess Nat Nat := ⟨.toBeRenamed 0 1, some (.unchanged [(1, 7)] 50), .unchanged [(2, 8)], false⟩
+def exWorld : World Nat Nat := ⟨[(0, ⟨[(1, 7)], 100⟩)], 2, []⟩
+
+theorem exInv : Inv exSess exWorld := by
+  constructor <;> simp [exSess, exWorld, CurId.newId, CurId.oldId, Map.lookup]
+
+-- `refine_step`, `carry_over`, `cycle_only_new_id`: the invariant holds, sync succeeds, a cookie comes out
+example : (sync exCfg exSess exWorld).1 = .ok := by decide
+example : (finalizeSession exCfg exSess exWorld).1 = .set 1 [(2, 8)] := by decide
+example : (getRaw exCfg 9 1 (newSession (some (1, [(2, 8)])) (finalizeSession exCfg exSess exWorld).2.2).1
+    (finalizeSession exCfg exSess exWorld).2.2).1 = .val (some 7) := by decide
+
+-- `invalidate_removes`: an invalidated session the client knows about
+def exInvalidated : Sess Nat Nat := ⟨.existing 0, some .markedForDeletion, .unchanged [(2, 8)], true⟩
+example : Inv exInvalidated exWorld := by
+  constructor <;> simp [exInvalidated, exWorld, CurId.newId, CurId.oldId, Map.lookup]
+example : (finalize exCfg exInvalidated exWorld).1 = .removal ∧ (finalize exCfg exInvalidated exWorld).2.2.store = [] := by decide
+
+-- `sync_fails_only_f7`: the refusal does occur (never-loaded state, cycled id, no record)
+def exF7 : Sess Nat Nat := ⟨.toBeRenamed 0 1, none, .unchanged [], false⟩
+example : Inv exF7 (⟨[], 2, []⟩ : World Nat Nat) := by
+  constructor <;> simp [exF7, CurId.newId, CurId.oldId, Map.lookup]
+example : (sync exCfg exF7 (⟨[], 2, []⟩ : World Nat Nat)).1 = .err f7 := by decide
 
 end Pxv.Session
